@@ -126,7 +126,15 @@ class Prop(PropBase):
     def _apply(self, z, op):
         pb, np = self.pb, self.np
         if op[0] == "sl":
-            sl = slice(op[1], op[2], op[3])
+            def ni(v, k):
+                # bounds as Python ints or (every third slice) as the narrowest NumPy integer holding them
+                if v is None or (abs(op[1] or 0) + abs(op[2] or 0) + k) % 3:
+                    return v
+                for t in (np.int8, np.int16, np.int32):
+                    if np.iinfo(t).min <= v <= np.iinfo(t).max:
+                        return t(v)
+                return np.int64(v)
+            sl = slice(ni(op[1], 1), ni(op[2], 2), ni(op[3], 3))
             form = op[4] if len(op) > 4 else "plain"
             if form == "tuple1":
                 return z[(sl,)]
@@ -163,7 +171,16 @@ class Prop(PropBase):
     def run_code(self, case):
         pb, np, u, Time = self.pb, self.np, self.u, self.Time
         rate = float(case["rate"][0]) * u.Unit(case["rate"][1])
-        z = sigs.make(pb, case["cls"], case["L"], rate, case["t0"], nchan=2, extra=())
+        # every fourth case reaches the same signal through the attribute setters (built with another rate / start, then assigned)
+        if (case["L"] + len(case["ops"])) % 4 == 0:
+            z = sigs.make(pb, case["cls"], case["L"], rate * 3, sigs.T0S[1] if case["t0"] is not None else None, nchan=2, extra=())
+            z.sample_rate = rate
+            if sigs.is_complex(case["cls"]):
+                z.chan_bw = rate
+            if case["t0"] is not None:
+                z.start_time = Time(case["t0"], precision=9)
+        else:
+            z = sigs.make(pb, case["cls"], case["L"], rate, case["t0"], nchan=2, extra=())
         tref = z.start_time
         prov = list(range(case["L"]))   # decoded again from the data at the end
         track = True
